@@ -67,9 +67,9 @@ theorem skel_to_key (l l' : List (Gene W)) (h : l'.map C05.Gene.skel = l.map C05
 theorem mutateLinkWeights_skel (g g' : Genome W) (power rate : W) (mt : WeightMutator) (rs rs' : List Nat)
     (h : mutateLinkWeights g power rate mt rs = .ok (g', rs')) (hr : TraitRefsOwned g) :
     SameSkel g g' ∧ TraitRefsOwned g' := by
-  obtain ⟨_, hn, ht, _, hc, _⟩ := C05.mutateLinkWeights_paramOnly g g' power rate mt rs rs' h
+  obtain ⟨_, hn, ht, hmo, hc, _⟩ := C05.mutateLinkWeights_paramOnly g g' power rate mt rs rs' h
   have hti : traitIds g' = traitIds g := by unfold traitIds; rw [ht]
-  refine ⟨⟨core_to_key _ _ hc, by rw [hn], hti⟩, traitRefsOwned_of g g' hti ?_ ?_⟩
+  refine ⟨⟨core_to_key _ _ hc, by rw [hn], hti, hmo⟩, traitRefsOwned_of g g' hti ?_ ?_⟩
   · intro x hx
     obtain ⟨y, hy, e⟩ := exists_of_map_eq C05.Gene.core hc hx
     have : y.trait = x.trait := by
@@ -82,9 +82,9 @@ theorem mutateLinkWeights_skel (g g' : Genome W) (power rate : W) (mt : WeightMu
 theorem mutateRandomTrait_skel (g g' : Genome W) (o : MutOpts W) (rs rs' : List Nat)
     (h : mutateRandomTrait g o rs = .ok (g', rs')) (hr : TraitRefsOwned g) :
     SameSkel g g' ∧ TraitRefsOwned g' := by
-  obtain ⟨hn, hg, _, ht⟩ := C05.mutateRandomTrait_paramOnly g g' o rs rs' h
+  obtain ⟨hn, hg, hmo, ht⟩ := C05.mutateRandomTrait_paramOnly g g' o rs rs' h
   have hti : traitIds g' = traitIds g := ht
-  refine ⟨⟨by rw [hg], by rw [hn], hti⟩, traitRefsOwned_of g g' hti ?_ ?_⟩
+  refine ⟨⟨by rw [hg], by rw [hn], hti, hmo⟩, traitRefsOwned_of g g' hti ?_ ?_⟩
   · rw [hg]; exact hr.1
   · rw [hn]; exact hr.2
 
@@ -120,9 +120,9 @@ theorem mutateLinkTrait_refs (times : Nat) (g g' : Genome W) (rs rs' : List Nat)
 theorem mutateLinkTrait_skel (times : Nat) (g g' : Genome W) (rs rs' : List Nat)
     (h : mutateLinkTrait g times rs = .ok (g', rs')) (hz : TraitIdsNonzero g) (hr : TraitRefsOwned g) :
     SameSkel g g' ∧ TraitRefsOwned g' := by
-  obtain ⟨hn, ht, _, hs, _, _⟩ := C05.mutateLinkTrait_paramOnly times g g' rs rs' h
+  obtain ⟨hn, ht, hmo, hs, _, _⟩ := C05.mutateLinkTrait_paramOnly times g g' rs rs' h
   have hti : traitIds g' = traitIds g := by unfold traitIds; rw [ht]
-  refine ⟨⟨skel_to_key _ _ hs, by rw [hn], hti⟩, traitRefsOwned_of g g' hti ?_ ?_⟩
+  refine ⟨⟨skel_to_key _ _ hs, by rw [hn], hti, hmo⟩, traitRefsOwned_of g g' hti ?_ ?_⟩
   · exact mutateLinkTrait_refs times g g' rs rs' h hz hr.1
   · rw [hn]; exact hr.2
 
@@ -158,13 +158,13 @@ theorem mutateNodeTrait_refs (times : Nat) (g g' : Genome W) (rs rs' : List Nat)
 theorem mutateNodeTrait_skel (times : Nat) (g g' : Genome W) (rs rs' : List Nat)
     (h : mutateNodeTrait g times rs = .ok (g', rs')) (hz : TraitIdsNonzero g) (hr : TraitRefsOwned g) :
     SameSkel g g' ∧ TraitRefsOwned g' := by
-  obtain ⟨hg, ht, _, hs⟩ := C05.mutateNodeTrait_paramOnly times g g' rs rs' h
+  obtain ⟨hg, ht, hmo, hs⟩ := C05.mutateNodeTrait_paramOnly times g g' rs rs' h
   have hti : traitIds g' = traitIds g := by unfold traitIds; rw [ht]
   have hsh : g'.nodes.map Node.shape = g.nodes.map Node.shape := by
     have := congrArg (List.map (fun c : Int × Nat × Nat => (c.1, c.2.1))) hs
     simp only [List.map_map, Function.comp_def] at this
     exact this
-  refine ⟨⟨by rw [hg], hsh, hti⟩, traitRefsOwned_of g g' hti ?_ ?_⟩
+  refine ⟨⟨by rw [hg], hsh, hti, hmo⟩, traitRefsOwned_of g g' hti ?_ ?_⟩
   · rw [hg]; exact hr.1
   · exact mutateNodeTrait_refs times g g' rs rs' h hz hr.2
 
@@ -199,9 +199,9 @@ theorem mutateToggleEnable_traits (times : Nat) (g g' : Genome W) (rs rs' : List
 theorem mutateToggleEnable_skel (times : Nat) (g g' : Genome W) (rs rs' : List Nat)
     (h : mutateToggleEnable g times rs = .ok (g', rs')) (hr : TraitRefsOwned g) :
     SameSkel g g' ∧ TraitRefsOwned g' := by
-  obtain ⟨hn, ht, _, hs, _⟩ := C05.mutateToggleEnable_spec times g g' rs rs' h
+  obtain ⟨hn, ht, hmo, hs, _⟩ := C05.mutateToggleEnable_spec times g g' rs rs' h
   have hti : traitIds g' = traitIds g := by unfold traitIds; rw [ht]
-  refine ⟨⟨skel_to_key _ _ hs, by rw [hn], hti⟩, traitRefsOwned_of g g' hti ?_ ?_⟩
+  refine ⟨⟨skel_to_key _ _ hs, by rw [hn], hti, hmo⟩, traitRefsOwned_of g g' hti ?_ ?_⟩
   · intro x hx
     obtain ⟨y, hy, e⟩ := mutateToggleEnable_traits times g g' rs rs' h x hx
     rw [e]; exact hr.1 y hy
@@ -222,9 +222,9 @@ theorem reenableFirst_key (l : List (Gene W)) :
 
 theorem mutateGeneReEnable_skel (g g' : Genome W) (h : mutateGeneReEnable g = .ok g') (hr : TraitRefsOwned g) :
     SameSkel g g' ∧ TraitRefsOwned g' := by
-  obtain ⟨hn, ht, _, hg⟩ := C05.mutateGeneReEnable_spec g g' h
+  obtain ⟨hn, ht, hmo, hg⟩ := C05.mutateGeneReEnable_spec g g' h
   have hti : traitIds g' = traitIds g := by unfold traitIds; rw [ht]
-  refine ⟨⟨by rw [hg]; exact (reenableFirst_key _).1, by rw [hn], hti⟩, traitRefsOwned_of g g' hti ?_ ?_⟩
+  refine ⟨⟨by rw [hg]; exact (reenableFirst_key _).1, by rw [hn], hti, hmo⟩, traitRefsOwned_of g g' hti ?_ ?_⟩
   · intro x hx
     rw [hg] at hx
     obtain ⟨y, hy, e⟩ := exists_of_map_eq (fun x : Gene W => x.trait) (reenableFirst_key g.genes).2 hx
